@@ -712,6 +712,475 @@ def oracle(env):
     return items
 
 
+# ----------------------------------------------------------------------------
+# dense sweep  (input family added after the seeded defect C17e-2)
+#
+# Family: EVERY n of a dense range two orders of magnitude beyond the exhaustive naive range
+# (0..2*10^5 quick / 0..10^6 thorough) for all six factorisation-like builtins (is_prime,
+# prime_factors, prime_factorisation, divisors, totient, next_prime), plus p*p*m and p*q*m for
+# ALL consecutive primes p < q below 10^4 and every small cofactor m.  Why general: an
+# implementation that replaces sympy by tables / trial division / thresholds can be wrong on
+# a handful of isolated n (a table one entry short, an off-by-one threshold) that no random
+# draw and no hand-made pool hits; a dense range leaves no gaps below the bound, and the
+# neighbouring-prime products are exactly the numbers whose smallest factor is as large as it
+# can be, i.e. the last ones a short table gets right, at every table length up to 10^4.
+# The reference is a smallest-prime-factor sieve (no sympy, no division in the factoring),
+# the products are decided by construction.
+# ----------------------------------------------------------------------------
+_SPF = None
+COFACTORS = (1, 2, 3, 5, 7, 210)
+
+
+def build_spf(limit):
+    """smallest prime factor of every n <= limit (sieve of Eratosthenes)."""
+    global _SPF
+    spf = list(range(limit + 1))
+    i = 2
+    while i * i <= limit:
+        if spf[i] == i:
+            for j in range(i * i, limit + 1, i):
+                if spf[j] == j:
+                    spf[j] = i
+        i += 1
+    _SPF = spf
+    return spf
+
+
+def sieve_factor(n):
+    out = []
+    while n > 1:
+        p = _SPF[n]
+        out.append(p)
+        n //= p
+    return out
+
+
+def divisors_from(fs):
+    """all divisors, ascending, from the sorted prime factors with multiplicity."""
+    ds = [1]
+    i = 0
+    while i < len(fs):
+        p, e = fs[i], 0
+        while i < len(fs) and fs[i] == p:
+            e += 1
+            i += 1
+        ds = [d * p ** k for d in ds for k in range(e + 1)]
+    return sorted(ds)
+
+
+def totient_from(n, fs):
+    for p in set(fs):
+        n = n // p * (p - 1)
+    return n
+
+
+def check_factoring(n, fs, nxt, out):
+    """n >= 1 with its known sorted prime factors fs and (if not None) the next prime."""
+    want = int(len(fs) == 1)
+    got = call("is_prime", n)
+    if got != want:
+        _bad(out, "is_prime", n, want, got)
+    got = call("prime_factors", n)
+    if _sorted_ints(got) != fs:
+        _bad(out, "prime_factors", n, fs, got)
+    got = call("prime_factorisation", n)
+    if got != sorted(set(fs)):
+        _bad(out, "prime_factorisation", n, sorted(set(fs)), got)
+    want = divisors_from(fs)
+    got = call("divisors", n)
+    if got != want:
+        _bad(out, "divisors", n, want, got)
+    want = totient_from(n, fs)
+    got = call("totient", n)
+    if got != want:
+        _bad(out, "totient", n, want, got)
+    if nxt is not None:
+        got = call("next_prime", n)
+        if got != nxt:
+            _bad(out, "next_prime", n, nxt, got)
+
+
+def oracle_dense(item):
+    lo, hi = item
+    out = []
+    nxt = lo + 1
+    for n in range(max(lo, 1), hi):
+        if nxt <= n:
+            nxt = n + 1
+        while _SPF[nxt] != nxt:
+            nxt += 1
+        check_factoring(n, sieve_factor(n), nxt, out)
+    return out
+
+
+def oracle_products(item):
+    out = []
+    for n, fs in item:
+        check_factoring(n, fs, N.next_prime_ref(n), out)
+    return out
+
+
+def dense(env):
+    import time
+    t0 = time.time()
+    nmax = env.budget(2 * 10 ** 5, 10 ** 6)
+    pmax = 10 ** 4
+    build_spf(nmax + 1000)          # the margin holds the next prime after nmax (prime gaps below 10^6 are < 200)
+    step = 2000
+    items = [(lo, min(lo + step, nmax + 1)) for lo in range(0, nmax + 1, step)]
+    res = V.pmap(oracle_dense, items, timeout=300, chunksize=1)
+    collect(env, res, items, "dense")
+    env.count(6 * nmax, (f"n:{n}" for n in range(2, nmax + 1)))
+    primes = [p for p in range(2, pmax) if _SPF[p] == p]
+    prods = {}
+    for p, q in zip(primes, primes[1:]):
+        for m in COFACTORS:
+            prods[p * p * m] = sorted([p, p] + sieve_factor(m))
+            prods[p * q * m] = sorted([p, q] + sieve_factor(m))
+    prods = sorted(prods.items())
+    items = [prods[i:i + 200] for i in range(0, len(prods), 200)]
+    res = V.pmap(oracle_products, items, timeout=300, chunksize=1)
+    collect(env, res, [(it[0][0], it[-1][0]) for it in items], "prime products")
+    env.count(6 * len(prods), (f"n:{n}" for n, _ in prods))
+    env.note("oracle_dense", {
+        "seconds": round(time.time() - t0, 1), "every_n": [1, nmax], "functions": ["is_prime", "prime_factors", "prime_factorisation", "divisors", "totient", "next_prime"],
+        "reference": "smallest-prime-factor sieve (no sympy); divisors and totient derived from the sieve's factorisation",
+        "prime_products": {"count": len(prods), "form": "p*p*m and p*q*m for all consecutive primes p < q < %d, m in %r" % (pmax, list(COFACTORS)),
+                           "largest": prods[-1][0], "reference": "by construction; next prime by deterministic Miller-Rabin"}})
+
+
+# ----------------------------------------------------------------------------
+# history independence  (observation sequence added after the seeded defect C17e-1)
+#
+# Family: the property is a statement about every CALL, so the answer must not depend on
+# what the process did before.  One fresh process (forked from the freshly imported state)
+# per sequence; in it every covered builtin is asked several times, in a seeded random order,
+# at arguments of a per-sequence scale, and between the calls "disturbers" run: EVERY other
+# element of the element table that accepts numbers (decided by a trial run, so the set follows
+# the table; elements doing input/output/evaluation are left out), with the first k items of
+# whatever list it returns consumed (infinite lists included; k of a per-sequence scale drawn
+# independently of the argument scale, so prefixes both shorter and far longer than anything
+# the builtins were asked for occur).  Every disturber is the focus of its own sequences
+# (run after about every second covered call), the others are sprinkled in.  Every covered
+# answer is compared with the naive sympy-free reference.  Why general: any module-level
+# cache, table, generator or counter shared between a covered builtin and anything else in
+# the table (or between two calls of the builtin itself) is exercised in both orders, with
+# reads beyond and below what is cached; no element, constant or argument is singled out.
+# ----------------------------------------------------------------------------
+IO_WORDS = ("vy_print", "input", "exit(", "vy_exec", "function_call", "request(", "ctx.inputs", "context_values", "(eval(")
+ARG_SCALES = (6, 25, 100, 400)
+PREFIX_SCALES = (8, 40, 150)
+TRIAL_PREFIX = max(PREFIX_SCALES)
+TRIAL_SECONDS = 0.25
+COVERED = tuple(KEYS) + ("from_hex",)
+NEEDS_POSITIVE = ("prime_factors", "prime_factorisation", "divisors", "totient")
+DYADS = ("gcd", "lcm", "binomial")
+_POOL = {}        # disturber key -> list of argument tuples that passed the trial
+
+
+def _dcode(key):
+    g = _impl()
+    d = g.setdefault("dcodes", {})
+    if key not in d:
+        d[key] = compile(g["E"].elements[key][0], f"<element {key}>", "exec")
+    return d[key]
+
+
+def consume(v, k, depth=0):
+    """force the first k items of a list-like value (and a few items of its items)."""
+    g = _impl()
+    if isinstance(v, (list, tuple, g["LazyList"])):
+        import itertools
+        for x in itertools.islice(iter(v), k):
+            if depth < 1:
+                consume(x, min(k, 5), depth + 1)
+        return "inf" if isinstance(v, g["LazyList"]) and getattr(v, "infinite", False) else "list"
+    return "scalar"
+
+
+def run_disturber(key, args, k):
+    g = _impl()
+    stack = [list(a) if isinstance(a, list) else a for a in args]
+    env = g["globals"]
+    env["stack"] = stack
+    env["ctx"] = g["ctx"]
+    try:
+        exec(_dcode(key), env)
+        kinds = [consume(x, k) for x in stack[-2:]]
+        return kinds[-1] if kinds else "nothing"
+    except Exception:  # noqa: BLE001   a disturber's own answer is not the subject
+        return "exc"
+
+
+def trial_op(op):
+    import time
+    import warnings
+    warnings.simplefilter("ignore")      # sympy deprecation chatter of elements outside the property
+    key, args = op
+    t = time.time()
+    kind = run_disturber(key, args, TRIAL_PREFIX)
+    return kind, time.time() - t
+
+
+def ref_factorial(n):
+    f = 1
+    for i in range(2, n + 1):
+        f *= i
+    return f
+
+
+def ref_binomial(n, k):
+    if k > n:
+        return 0
+    c = 1
+    for i in range(1, k + 1):
+        c = c * (n - k + i) // i
+    return c
+
+
+def _from_digits(ds, b):
+    n = 0
+    for d in ds:
+        n = n * b + d
+    return n
+
+
+REFS = {
+    "is_prime": lambda n: int(ref_is_prime(n)), "prime_factors": ref_factor, "prime_factorisation": lambda n: sorted(set(ref_factor(n))),
+    "divisors": ref_divisors, "gcd": ref_gcd, "lcm": ref_lcm, "factorial": ref_factorial, "binomial": ref_binomial,
+    "totient": ref_totient, "next_prime": ref_next_prime, "bin": lambda n: ref_digits(n, 2), "from_bin": lambda bits: _from_digits(bits, 2),
+    "hex": ref_hex, "from_hex": lambda s: _from_digits([HEXD.index(c) for c in s.lower()], 16),
+    "inclusive_one_range": lambda n: list(range(1, n + 1)), "inclusive_zero_range": lambda n: list(range(0, n + 1)),
+    "exclusive_one_range": lambda n: list(range(1, n)), "exclusive_zero_range": lambda n: list(range(0, n)),
+    "halve": ref_halve, "double": lambda n: n + n, "square": lambda n: n * n, "digit_sum": lambda n: sum(ref_digits(n, 10)),
+    "digits": lambda n: ref_digits(n, 10),
+}
+
+
+def covered_check(name, args):
+    """One call of a covered builtin against its definition: None, or (want, got)."""
+    elem = "hex" if name == "from_hex" else name
+    got = call(elem, *[list(a) if isinstance(a, list) else a for a in args])
+    if name == "sqrt":
+        r = ref_isqrt(args[0])
+        if r is not None:
+            return None if got == r else (r, got)
+        if isinstance(got, int) or (isinstance(got, tuple) and got[0] in ("q", "exc")):
+            return ("an irrational value (n is not a perfect square)", got)
+        return None
+    want = REFS[name](*args)
+    if name == "prime_factors":
+        got = _sorted_ints(got)
+    return None if got == want else (want, got)
+
+
+def covered_args(rng, name, scale):
+    n = rng.randint(0, 6) if rng.random() < 0.2 else rng.randint(0, scale)
+    if name in NEEDS_POSITIVE:
+        n = max(n, 1)
+    if name in DYADS:
+        return [n, rng.randint(0, scale)]
+    if name == "sqrt" and rng.random() < 0.5:
+        return [n * n]
+    if name == "from_bin":
+        return [ref_digits(n, 2)]
+    if name == "from_hex":
+        h = ref_hex(n)
+        return [h.upper() if rng.random() < 0.5 else h]
+    return [n]
+
+
+def make_sequence(focus, seed, reps):
+    """The operations of one process: ['c', builtin, args] | ['d', element key, args, prefix]."""
+    import random
+    rng = random.Random(seed)
+    scale, kmax = rng.choice(ARG_SCALES), rng.choice(PREFIX_SCALES)
+    keys = sorted(_POOL)
+    calls = [name for name in COVERED for _ in range(reps)]
+    rng.shuffle(calls)
+    seq = []
+    for name in calls:
+        r = rng.random()
+        key = focus if r < 0.5 else (rng.choice(keys) if r < 0.7 else None)
+        if key is not None:
+            seq.append(["d", key, rng.choice(_POOL[key]), rng.randint(1, kmax)])
+        seq.append(["c", name, covered_args(rng, name, scale)])
+    return seq, scale, kmax
+
+
+def exec_sequence(seq, only_last=False):
+    """Runs the operations in this process; the first covered call that disagrees with its
+    definition is returned (only_last: the earlier covered calls are executed, not judged)."""
+    for i, op in enumerate(seq):
+        if op[0] == "d":
+            run_disturber(op[1], op[2], op[3])
+        elif only_last and i < len(seq) - 1:
+            call("hex" if op[1] == "from_hex" else op[1], *[list(a) if isinstance(a, list) else a for a in op[2]])
+        else:
+            bad = covered_check(op[1], op[2])
+            if bad is not None:
+                return {"at": i, "fn": op[1], "args": op[2], "want": _short(bad[0]), "got": _short(bad[1])}
+    return None
+
+
+def in_child(fn, budget):
+    """fn() in a forked child of this process (so that nothing it does to module-level state
+    survives): ('ok', json-able result) | ('died', why).  The child carries its own alarm."""
+    import json
+    import os
+    import signal
+    r, w = os.pipe()
+    pid = os.fork()
+    if pid == 0:
+        try:
+            os.close(r)
+            try:
+                os.dup2(os.open(os.devnull, os.O_WRONLY), 1)
+            except OSError:
+                pass
+            import warnings
+            warnings.simplefilter("ignore")
+            signal.signal(signal.SIGALRM, V._alarm)
+            signal.setitimer(signal.ITIMER_REAL, budget, 0.5)
+            try:
+                res = ("ok", fn())
+            except V.Timeout:
+                res = ("died", "timeout")
+            except BaseException as e:  # noqa: BLE001
+                res = ("died", type(e).__name__)
+            signal.setitimer(signal.ITIMER_REAL, 0)
+            with os.fdopen(w, "wb") as f:
+                f.write(json.dumps(res).encode())
+        except BaseException:  # noqa: BLE001
+            pass
+        finally:
+            os._exit(0)
+    os.close(w)
+    try:
+        with os.fdopen(r, "rb") as f:
+            data = f.read()
+    finally:
+        try:
+            os.kill(pid, signal.SIGKILL)
+        except ProcessLookupError:
+            pass
+        os.waitpid(pid, 0)
+    if not data:
+        return ("died", "no answer")
+    return tuple(json.loads(data))
+
+
+def history_worker(item):
+    focus, seed, reps = item
+    seq, scale, kmax = make_sequence(focus, seed, reps)
+    st, res = in_child(lambda: exec_sequence(seq), 120)
+    if st != "ok":
+        return {"died": res, "ops": len(seq)}
+    out = {"ops": len(seq), "covered": sum(1 for op in seq if op[0] == "c"), "scale": scale, "kmax": kmax, "fail": None}
+    if res is not None:
+        last = seq[res["at"]]
+        st2, fresh = in_child(lambda: covered_check(last[1], last[2]), 60)
+        res["history"] = seq[:res["at"]]
+        res["fresh"] = "the definition's value" if (st2 == "ok" and fresh is None) else _short(fresh)
+        out["fail"] = res
+    return out
+
+
+def still_fails(history, last):
+    st, res = in_child(lambda: exec_sequence(history + [last], only_last=True), 120)
+    return st == "ok" and res is not None
+
+
+def minimise(history, last, budget=80):
+    """Greedy chunk removal (each candidate in its own fresh child): a shorter history after
+    which the same call still disagrees with its definition."""
+    if not still_fails(history, last):
+        return history        # not reproducible from the parent's state: keep the full record
+    chunk = max(1, len(history) // 2)
+    while chunk >= 1 and budget > 0:
+        i = 0
+        while i < len(history) and budget > 0:
+            cand = history[:i] + history[i + chunk:]
+            budget -= 1
+            if still_fails(cand, last):
+                history = cand
+            else:
+                i += chunk
+        chunk //= 2
+    return history
+
+
+def history(env):
+    import time
+    t0 = time.time()
+    g = _impl()
+    rng = env.rng
+    table = g["E"].elements
+    covered_keys = set(KEYS.values())
+    left_out = sorted(k for k, (t, a) in table.items() if k not in covered_keys and any(w in t for w in IO_WORDS))
+    cands = [k for k, (t, a) in table.items() if k not in covered_keys and k not in left_out]
+    ops = []
+    per_elem = env.budget(4, 8)
+    for k in cands:
+        arity = table[k][1]
+        for j in range(1 if arity == 0 else per_elem):
+            s = ARG_SCALES[j % len(ARG_SCALES)]
+            args = []
+            for _ in range(arity):
+                if rng.random() < 0.7:
+                    args.append(rng.randint(0, s))
+                else:
+                    args.append([rng.randint(0, s) for _ in range(rng.randint(1, 5))])
+            ops.append((k, args))
+    res = V.pmap(trial_op, ops, timeout=3, hard=10)
+    _POOL.clear()
+    kinds, dropped = {}, {}
+    for (k, args), (st, r) in zip(ops, res):
+        if st == "ok" and r[0] != "exc" and r[1] < TRIAL_SECONDS:
+            _POOL.setdefault(k, []).append(args)
+            kinds[r[0]] = kinds.get(r[0], 0) + 1
+        else:
+            why = st if st != "ok" else ("exception" if r[0] == "exc" else "slow")
+            dropped[why] = dropped.get(why, 0) + 1
+    per_focus = env.budget(2, 6)
+    reps = env.budget(4, 6)
+    items = [(k, rng.getrandbits(48), reps) for k in sorted(_POOL) for _ in range(per_focus)]
+    res = V.pmap(history_worker, items, timeout=200, chunksize=1)
+    fails, ncalls, nops = [], 0, 0
+    for it, (st, out) in zip(items, res):
+        if st != "ok" or "died" in out:
+            env.proof_broken(f"history sequence (focus {it[0]!r}, seed {it[1]}) did not finish", f"{st}: {out}")
+            continue
+        ncalls += out["covered"]
+        nops += out["ops"]
+        if out["fail"]:
+            fails.append((it, out["fail"]))
+    seen = set()
+    for it, f in fails:
+        if f["fn"] in seen or len(seen) >= 6:      # one minimised report per builtin
+            continue
+        seen.add(f["fn"])
+        last = ["c", f["fn"], f["args"]]
+        hist = minimise(f["history"], last)
+        env.fail({"fn": f["fn"], "input": f["args"], "history": hist, "sequence": {"focus": it[0], "seed": it[1], "reps": it[2]}},
+                 f"after the {len(hist)} recorded operations in one process, {f['fn']}({f['args']}) returns {f['got']}, the definition gives {f['want']}; "
+                 f"the same call in a fresh process gives {f['fresh']} ({len(fails)} of {len(items)} sequences failed)",
+                 cls=f"history:{f['fn']}")
+    env.count(ncalls, (f"seq:{k}:{s}" for k, s, _ in items))
+    env.note("oracle_history", {
+        "seconds": round(time.time() - t0, 1), "sequences": len(items), "operations": nops, "covered_calls_compared": ncalls, "covered_builtins": list(COVERED),
+        "calls_per_builtin_per_sequence": reps, "sequences_per_focus_disturber": per_focus,
+        "disturber_elements": len(_POOL), "disturber_argument_tuples": sum(len(v) for v in _POOL.values()),
+        "disturber_result_kinds_in_trial": kinds, "candidate_elements": len(cands), "trial_dropped": dropped,
+        "left_out_io_elements": left_out,
+        "distribution": "one fresh forked process per sequence; per sequence an argument scale from %r and a prefix scale from %r, drawn independently; "
+                        "covered argument uniform on [0, scale] (a fifth of the time on [0, 6]; perfect squares for half of the root calls; both "
+                        "operands of the dyads uniform); before each covered call with probability 0.5 the focus disturber, 0.2 a uniformly chosen "
+                        "other disturber, with a prefix of uniform length 1..prefix scale consumed from each list it returns; disturber arguments: "
+                        "ints uniform on [0, s] (0.7) or lists of 1..5 such ints (0.3), s cycling through the argument scales; an argument tuple is "
+                        "kept when its trial (prefix %d) answered without exception within %.2f s" % (list(ARG_SCALES), list(PREFIX_SCALES), TRIAL_PREFIX, TRIAL_SECONDS)})
+
+
 def run(env):
     env.rule = ("(1) correspondence: every monadic builtin on n = 0..300 (quick) / 0..3000 (thorough), factorial and the four ranges on "
                 "n = 0..120 / 0..400, gcd, lcm, binomial on all pairs <= 40 / <= 120: the element's template is executed in-process, its "
@@ -722,7 +1191,14 @@ def run(env):
                 "near powers of ten and word sizes with neighbours, prime squares/cubes, products of close primes, Mersenne/Fermat numbers, 2^k, 10^k, "
                 "n!, primorials +-1; up to 2^128) + random n up to 2^64 and random semiprimes, all decided by an independent reference (deterministic "
                 "Miller-Rabin, recorded factorisations / Pollard rho, no sympy); the pool members below 3*10^7 also go through the Coq model "
-                "(is_prime, prime_factors). Non-trivial = n >= 2 (pairs: both >= 1), distinct by input; "
+                "(is_prime, prime_factors); "
+                "(3) dense sweep: is_prime, prime_factors, prime_factorisation, divisors, totient, next_prime for EVERY n = 1..2*10^5 / 1..10^6 against a "
+                "smallest-prime-factor sieve, and for p*p*m, p*q*m over all consecutive primes p < q < 10^4 with small cofactors m (decided by construction); "
+                "(4) history independence: one fresh process per sequence, every covered builtin called several times in seeded random order at "
+                "arguments of a per-sequence scale, interleaved with every other element of the table that accepts numbers (the first k items of the "
+                "lists it returns consumed, infinite lists included, k of an independent per-sequence scale), every covered answer compared with the "
+                "naive reference; a failing sequence is minimised and reported with its history. "
+                "Non-trivial = n >= 2 (pairs: both >= 1; sequences: one per focus element and seed), distinct by input; "
                 "inputs where the textbook function is undefined are excluded and listed under `excluded`.")
     V.import_repo()
     g = _impl()
@@ -736,6 +1212,8 @@ def run(env):
             env.proof_broken(f"element {k} ({name}) is not in the regenerated element table", "")
     rows = correspondence(env)
     items = oracle(env)
+    dense(env)
+    history(env)
     # what the implementation does where the textbook function is undefined
     env.note("excluded", {k: {"why": why, "implementation_returns": _short(call(k.split("(")[0], 0))} for k, why in EXCLUDED.items()})
     env.note("prime_factors_order", {
@@ -765,6 +1243,8 @@ def search_without_tables(env):
         V.import_repo()
         _impl()
         oracle(env)
+        dense(env)
+        history(env)
     except Exception as e:  # noqa: BLE001
         env.proof_broken("implementation does not import", repr(e))
 
@@ -776,6 +1256,15 @@ def replay(rec):
     inp = f.get("input") or {}
     print(json.dumps(rec.get("failure"), ensure_ascii=False, indent=1))
     fn, x = inp.get("fn"), inp.get("input")
+    if inp.get("history") is not None and fn in COVERED:
+        V.import_repo()
+        last = ["c", fn, x]
+        st, res = in_child(lambda: exec_sequence(list(inp["history"]) + [last], only_last=True), 120)
+        print(f"now, after the recorded history in a fresh process: {fn}{tuple(x)} -> "
+              + ("agrees with the definition" if (st == "ok" and res is None) else repr(res)))
+        st, res = in_child(lambda: covered_check(fn, x), 60)
+        print(f"now, alone in a fresh process: {fn}{tuple(x)} -> " + ("agrees with the definition" if (st == "ok" and res is None) else repr(res)))
+        return 0
     base = (fn or "").split("(")[0]
     if base in KEYS and x is not None:
         args = x if isinstance(x, list) and base in ("gcd", "lcm", "binomial") else [x]
